@@ -142,6 +142,23 @@ class C15(Check):
                             for t in "us":
                                 add(t, d, sg + body, "boundary-exact")
                             add("s", "with_suffix", sg + body + " " + d, "boundary-exact")
+        # integer part exactly floor(M / 10^k) with a fraction at, just above and far above the remainder, for M = 2^63-1, 2^64-1
+        # (an accumulation that scales the integer part once and then adds fraction digits unchecked wraps here)
+        for d in dens:
+            k = DEN[d]
+            if k == 0:
+                continue
+            for M in (2**63 - 1, 2**64 - 1, 2**64):
+                ip, rem = divmod(M, 10**k)
+                fracs = {rem, rem + 1, min(10**k - 1, rem + 10**(k - 1)), 10**k - 1, 5 * 10**(k - 1), max(0, rem - 1)}
+                for f in sorted(fracs):
+                    if f >= 10**k:
+                        continue
+                    fs = ("%0" + str(k) + "d") % f
+                    for body in ("%d.%s" % (ip, fs), "%d.%s" % (ip, fs.rstrip("0") or "0"), "%d.%s" % (ip + 1, "0" * k)):
+                        for sg in ("", "-"):
+                            for t in "us":
+                                add(t, d, sg + body, "integer-part-at-the-scaled-limit")
         # zero padding up to the length limit
         for total in (48, 49, 50, 51, 52):
             for body in ("1", "9223372036854775807", "9223372036854775808", "0"):
